@@ -24,6 +24,7 @@ func init() {
 			"K8 a fractional reservation is scaled to the semaphore's unit before it is rounded (no float->integer conversion multiplied by a constant afterwards). " +
 			"K9 the memory measurement that reaches UpdateFreeUsed excludes the job manager's own process. " +
 			"K10 no re-attach call is control dependent on the boolean result of another re-attach call. " +
+			"K11 every endJob call in the updateState functions is dominated by a comparison of a getState result. " +
 			"NOT decided: arithmetic of UpdateFreeUsed, curSize<=maxSize through UpdateSize, progress of the run loop.",
 		Assumptions: commonAssumptions,
 	}
@@ -437,6 +438,7 @@ func runC12(c *an.Ctx) {
 	ruleK8(c)
 	ruleK9(c)
 	ruleK10(c)
+	ruleK11(c)
 }
 
 // loadBefore reports whether the field load v happens before the store st on
